@@ -7,10 +7,10 @@ namespace MJ.Lexer
 
 def Tag.marker (g : Tag) : Marker :=
   match g.kind with
-  | .var => .var
-  | .block _ => .block
-  | .comment => .comment
-  | .raw _ _ _ => .block
+  | .var _ => .var
+  | .block _ _ => .block
+  | .comment _ => .comment
+  | .raw _ _ _ _ => .block
 
 theorem Tag.own (d : Delims) (g : Tag) : Own d (g.start d) g.marker := by
   cases g with | mk kind l r => cases kind <;> constructor
@@ -26,8 +26,10 @@ theorem Tag.marker_ne_lineComment (g : Tag) : g.marker ≠ .lineComment := by
 
 theorem Mark.ws_len (m : Mark) : m.ws.len = m.src.length := by cases m <;> rfl
 
-theorem wsOfChar_mark (m : Mark) (y : List Char) : wsOfChar (m.src ++ (' ' :: y)).head? = m.ws := by
-  cases m <;> simp [Mark.src, Mark.ws, wsOfChar]
+theorem wsOfChar_mark (m : Mark) (c : Char) (y : List Char) (hc : isMarkChar c = false) :
+    wsOfChar (m.src ++ (c :: y)).head? = m.ws := by
+  have h : c ≠ '-' ∧ c ≠ '+' := by simpa [isMarkChar] using hc
+  cases m <;> simp [Mark.src, Mark.ws, wsOfChar, h.1, h.2]
 
 theorem nlLen_le (s : List Char) : nlLen s ≤ s.length := by
   cases s with
@@ -157,48 +159,49 @@ theorem drop_start_mark (start : List Char) (l : Mark) (y : List Char) :
     (start ++ (l.src ++ y)).drop (start.length + l.ws.len) = y := by
   rw [Mark.ws_len, ← List.append_assoc, ← List.length_append, List.drop_left]
 
-theorem handleTag_var (cfg : Cfg) {d : Delims} (g : Good d) (lead : List Out) (l r : Mark)
+theorem handleTag_var (cfg : Cfg) {d : Delims} (g : Good d) (lead : List Out) (tight : Bool) (l r : Mark)
     (preTag t' more : List Char) :
     handleTag cfg d lead .var (d.vs.length + l.ws.len) preTag
-        ((Tag.mk .var l r).src d ++ (t' ++ more)) =
-      .next (lead ++ [.var]) (((t').take (nextK cfg false r t')).reverse ++ (((Tag.mk .var l r).src d).reverse ++ preTag))
+        ((Tag.mk (.var tight) l r).src d ++ (t' ++ more)) =
+      .next (lead ++ [.var]) (((t').take (nextK cfg false r t')).reverse ++ (((Tag.mk (.var tight) l r).src d).reverse ++ preTag))
         ((t').drop (nextK cfg false r t') ++ more) (nextTf r) := by
   have hk : nextK cfg false r t' = 0 := by cases r <;> simp [nextK]
   obtain ⟨c, rr, hvs, _⟩ := startOk_cons g.vs
-  have hne : (Tag.mk .var l r).src d ≠ [] := by simp [Tag.src, Tag.start, hvs]
-  have hsrc : (Tag.mk .var l r).src d ++ (t' ++ more) =
-      d.vs ++ (l.src ++ (varBody ++ (r.src ++ (d.ve ++ (t' ++ more))))) := by
+  have hne : (Tag.mk (.var tight) l r).src d ≠ [] := by simp [Tag.src, Tag.start, hvs]
+  have hsrc : (Tag.mk (.var tight) l r).src d ++ (t' ++ more) =
+      d.vs ++ (l.src ++ (varBody tight ++ (r.src ++ (d.ve ++ (t' ++ more))))) := by
     simp [Tag.src, Tag.start, Tag.after, List.append_assoc]
-  have hlen : ((Tag.mk .var l r).src d).length =
-      d.vs.length + l.ws.len + (varBody.length + r.src.length + d.ve.length) := by
+  have hlen : ((Tag.mk (.var tight) l r).src d).length =
+      d.vs.length + l.ws.len + ((varBody tight).length + r.src.length + d.ve.length) := by
     simp [Tag.src, Tag.start, Tag.after, Mark.ws_len]; omega
   unfold handleTag
   simp only []
   rw [hsrc, drop_start_mark, scanTag_varBody g.ve]
   simp only []
   rw [← hsrc, ← hlen]
-  have := contAfter_src lead [.var] preTag ((Tag.mk .var l r).src d) (t' ++ more) 0 (decide (r.ws = Ws.remove)) hne
+  have := contAfter_src lead [.var] preTag ((Tag.mk (.var tight) l r).src d) (t' ++ more) 0 (decide (r.ws = Ws.remove)) hne
   simp only [Nat.add_zero] at this
   rw [this, hk]
   cases r <;> simp [nextTf, Mark.ws]
 
-theorem skipBasicTag_word_none (w : Word) (y be : List Char) :
-    skipBasicTag (w.src ++ y) rawName be false = none := by
-  cases w <;> simp [skipBasicTag, stripMarkerIf, Word.src, rawName, List.dropWhile_cons, isAsciiWs, startsWith]
+theorem skipBasicTag_word_none (w : Word) (tight : Bool) (y be : List Char) :
+    skipBasicTag (w.src tight ++ y) rawName be false = none := by
+  cases w <;> cases tight <;>
+    simp [skipBasicTag, stripMarkerIf, Word.src, Word.core, pad, rawName, List.dropWhile_cons, isAsciiWs, startsWith]
 
-theorem handleTag_block (cfg : Cfg) {d : Delims} (g : Good d) (lead : List Out) (w : Word) (l r : Mark)
+theorem handleTag_block (cfg : Cfg) {d : Delims} (g : Good d) (lead : List Out) (w : Word) (tight : Bool) (l r : Mark)
     (preTag t' more : List Char) (hm : NoWsHead more) :
     handleTag cfg d lead .block (d.bs.length + l.ws.len) preTag
-        ((Tag.mk (.block w) l r).src d ++ (t' ++ more)) =
-      .next (lead ++ [.blk]) (((t').take (nextK cfg true r t')).reverse ++ (((Tag.mk (.block w) l r).src d).reverse ++ preTag))
+        ((Tag.mk (.block w tight) l r).src d ++ (t' ++ more)) =
+      .next (lead ++ [.blk]) (((t').take (nextK cfg true r t')).reverse ++ (((Tag.mk (.block w tight) l r).src d).reverse ++ preTag))
         ((t').drop (nextK cfg true r t') ++ more) (nextTf r) := by
   obtain ⟨c, rr, hbs, _⟩ := startOk_cons g.bs
-  have hne : (Tag.mk (.block w) l r).src d ≠ [] := by simp [Tag.src, Tag.start, hbs]
-  have hsrc : (Tag.mk (.block w) l r).src d ++ (t' ++ more) =
-      d.bs ++ (l.src ++ (w.src ++ (r.src ++ (d.be ++ (t' ++ more))))) := by
+  have hne : (Tag.mk (.block w tight) l r).src d ≠ [] := by simp [Tag.src, Tag.start, hbs]
+  have hsrc : (Tag.mk (.block w tight) l r).src d ++ (t' ++ more) =
+      d.bs ++ (l.src ++ (w.src tight ++ (r.src ++ (d.be ++ (t' ++ more))))) := by
     simp [Tag.src, Tag.start, Tag.after, List.append_assoc]
-  have hlen : ((Tag.mk (.block w) l r).src d).length =
-      d.bs.length + l.ws.len + (w.src.length + r.src.length + d.be.length) := by
+  have hlen : ((Tag.mk (.block w tight) l r).src d).length =
+      d.bs.length + l.ws.len + ((w.src tight).length + r.src.length + d.be.length) := by
     simp [Tag.src, Tag.start, Tag.after, Mark.ws_len]; omega
   unfold handleTag
   simp only []
@@ -209,39 +212,69 @@ theorem handleTag_block (cfg : Cfg) {d : Delims} (g : Good d) (lead : List Out) 
   rw [contAfter_src lead [.blk] preTag _ (t' ++ more) _ _ hne]
   rw [List.take_append_of_le_length (nextK_le cfg true r t'), List.drop_append_of_le_length (nextK_le cfg true r t')]
 
-theorem wsOfChar_comment_end (cs : List Char) (l r : Mark) (y : List Char) :
-    wsOfChar ((cs ++ (l.src ++ (commentBody ++ (r.src ++ y)))).drop
-      (commentBody.length + r.src.length - 1 + (cs.length + l.ws.len))).head? = r.ws := by
-  have h : (cs ++ (l.src ++ (commentBody ++ (r.src ++ y)))).drop (cs.length + l.ws.len) =
-      commentBody ++ (r.src ++ y) := drop_start_mark cs l _
+theorem wsOfChar_comment_end {e : List Char} (he : headOk e = true) (cs body : List Char) (l r : Mark)
+    (y : List Char) (hb : bodyEndOk body r = true) :
+    wsOfChar ((cs ++ (l.src ++ (body ++ (r.src ++ (e ++ y))))).drop
+      (body.length + r.src.length - 1 + (cs.length + l.ws.len))).head? = r.ws := by
+  have h : (cs ++ (l.src ++ (body ++ (r.src ++ (e ++ y))))).drop (cs.length + l.ws.len) =
+      body ++ (r.src ++ (e ++ y)) := drop_start_mark cs l _
   rw [Nat.add_comm, ← List.drop_drop, h]
-  cases r <;> simp [commentBody, Mark.src, Mark.ws, wsOfChar]
+  obtain ⟨h0, t0, rfl, _, _, h3, h4⟩ := headOk_cons he
+  cases r with
+  | minus =>
+    have : body.length + Mark.minus.src.length - 1 = body.length := by simp [Mark.src]
+    rw [this, List.drop_left]; simp [Mark.src, Mark.ws, wsOfChar]
+  | plus =>
+    have : body.length + Mark.plus.src.length - 1 = body.length := by simp [Mark.src]
+    rw [this, List.drop_left]; simp [Mark.src, Mark.ws, wsOfChar]
+  | none =>
+    simp only [bodyEndOk, bne_self_eq_false, Bool.false_or] at hb
+    cases hr : body.reverse with
+    | nil =>
+      have : body = [] := by simpa using hr
+      subst this
+      simp [Mark.src, Mark.ws, wsOfChar, h3, h4]
+    | cons c r' =>
+      rw [hr] at hb
+      have hbody : body = r'.reverse ++ [c] := by
+        have := congrArg List.reverse hr; simpa using this
+      have hc : c ≠ '-' ∧ c ≠ '+' := by simpa [isMarkChar] using hb
+      have hn : body.length + Mark.none.src.length - 1 = r'.reverse.length := by
+        rw [hbody]; simp [Mark.src]
+      rw [hn, hbody, List.append_assoc, List.drop_left]
+      simp [Mark.ws, wsOfChar, hc.1, hc.2]
 
-theorem handleTag_comment (cfg : Cfg) {d : Delims} (g : Good d) (lead : List Out) (l r : Mark)
-    (preTag t' more : List Char) (hm : NoWsHead more) :
+theorem handleTag_comment (cfg : Cfg) {d : Delims} (g : Good d) (lead : List Out) (body : List Char)
+    (l r : Mark) (preTag t' more : List Char) (hm : NoWsHead more)
+    (hce : noPatIn d.ce (body ++ r.src) (d.ce ++ (t' ++ more)) = true) (hb : bodyEndOk body r = true) :
     handleTag cfg d lead .comment (d.cs.length + l.ws.len) preTag
-        ((Tag.mk .comment l r).src d ++ (t' ++ more)) =
-      .next (lead ++ []) (((t').take (nextK cfg true r t')).reverse ++ (((Tag.mk .comment l r).src d).reverse ++ preTag))
+        ((Tag.mk (.comment body) l r).src d ++ (t' ++ more)) =
+      .next (lead ++ []) (((t').take (nextK cfg true r t')).reverse ++ (((Tag.mk (.comment body) l r).src d).reverse ++ preTag))
         ((t').drop (nextK cfg true r t') ++ more) (nextTf r) := by
   obtain ⟨c, rr, hcs, _⟩ := startOk_cons g.cs
-  have hne : (Tag.mk .comment l r).src d ≠ [] := by simp [Tag.src, Tag.start, hcs]
-  have hsrc : (Tag.mk .comment l r).src d ++ (t' ++ more) =
-      d.cs ++ (l.src ++ (commentBody ++ (r.src ++ (d.ce ++ (t' ++ more))))) := by
+  obtain ⟨c0, r0, hce0, _⟩ := headOk_cons g.ce
+  have hne : (Tag.mk (.comment body) l r).src d ≠ [] := by simp [Tag.src, Tag.start, hcs]
+  have hsrc : (Tag.mk (.comment body) l r).src d ++ (t' ++ more) =
+      d.cs ++ (l.src ++ (body ++ (r.src ++ (d.ce ++ (t' ++ more))))) := by
     simp [Tag.src, Tag.start, Tag.after, List.append_assoc]
-  have hlen : ((Tag.mk .comment l r).src d).length =
-      d.cs.length + l.ws.len + (commentBody.length + r.src.length) + d.ce.length := by
+  have hlen : ((Tag.mk (.comment body) l r).src d).length =
+      d.cs.length + l.ws.len + (body.length + r.src.length) + d.ce.length := by
     simp [Tag.src, Tag.start, Tag.after, Mark.ws_len]; omega
+  have hfind : findSub d.ce (body ++ (r.src ++ (d.ce ++ (t' ++ more)))) = some (body.length + r.src.length) := by
+    have := findSub_body d.ce (by simp [hce0]) (body ++ r.src) (t' ++ more) hce
+    simpa [List.append_assoc] using this
   unfold handleTag
   simp only []
-  rw [hsrc, drop_start_mark, findSub_comment g.ce]
+  rw [hsrc, drop_start_mark, hfind]
   simp only []
-  rw [wsOfChar_comment_end, ← hsrc, ← hlen, List.drop_left, tailWs_eq cfg r t' more hm]
+  rw [wsOfChar_comment_end g.ce _ _ _ _ _ hb, ← hsrc, ← hlen, List.drop_left, tailWs_eq cfg r t' more hm]
   simp only []
   rw [contAfter_src lead [] preTag _ (t' ++ more) _ _ hne]
   rw [List.take_append_of_le_length (nextK_le cfg true r t'), List.drop_append_of_le_length (nextK_le cfg true r t')]
 
 /-- source of a raw tag up to and including the end of `{% raw %}` -/
-def rawOpen (d : Delims) (l ri : Mark) : List Char := d.bs ++ (l.src ++ (rawBody ++ (ri.src ++ d.be)))
+def rawOpen (d : Delims) (tight : Bool) (l ri : Mark) : List Char :=
+  d.bs ++ (l.src ++ (rawBody tight ++ (ri.src ++ d.be)))
 
 theorem lastOk_rev {e : List Char} (h : lastOk e = true) : ∃ c r, e.reverse = c :: r ∧ isWs c = false := by
   unfold lastOk at h
@@ -258,32 +291,32 @@ theorem rawData_eq (cfg : Cfg) (ri l2 : Mark) (preRaw c : List Char) (hc : CtxOk
   rw [h1, leadOf_eq_cut cfg hc l2 .block true rfl (by simp) (by simp)]
 
 theorem handleTag_raw (cfg : Cfg) {d : Delims} (g : Good d) (lead : List Out) (c : List Char)
-    (ri l2 l r : Mark) (preTag t' more : List Char) (hm : NoWsHead more)
-    (hfree : rawFree d (Tag.mk (.raw c ri l2) l r) (t' ++ more) = true) :
+    (ri l2 : Mark) (tight : Bool) (l r : Mark) (preTag t' more : List Char) (hm : NoWsHead more)
+    (hfree : rawFree d (Tag.mk (.raw c ri l2 tight) l r) (t' ++ more) = true) :
     handleTag cfg d lead .block (d.bs.length + l.ws.len) preTag
-        ((Tag.mk (.raw c ri l2) l r).src d ++ (t' ++ more)) =
+        ((Tag.mk (.raw c ri l2 tight) l r).src d ++ (t' ++ more)) =
       .next (lead ++ [.data (cut (leftCut cfg true ri c) (rightCut cfg false true l2 c) c)])
-        (((t').take (nextK cfg true r t')).reverse ++ (((Tag.mk (.raw c ri l2) l r).src d).reverse ++ preTag))
+        (((t').take (nextK cfg true r t')).reverse ++ (((Tag.mk (.raw c ri l2 tight) l r).src d).reverse ++ preTag))
         ((t').drop (nextK cfg true r t') ++ more) (nextTf r) := by
   obtain ⟨c0, rr, hbs, _⟩ := startOk_cons g.bs
-  have hne : (Tag.mk (.raw c ri l2) l r).src d ≠ [] := by simp [Tag.src, Tag.start, hbs]
+  have hne : (Tag.mk (.raw c ri l2 tight) l r).src d ≠ [] := by simp [Tag.src, Tag.start, hbs]
   generalize hX : t' ++ more = X
   -- the closing tag and what follows
-  generalize hZ : d.bs ++ (l2.src ++ (endrawBody ++ (r.src ++ (d.be ++ X)))) = Z
-  have hsrc : (Tag.mk (.raw c ri l2) l r).src d ++ X =
-      d.bs ++ (l.src ++ (rawBody ++ (ri.src ++ (d.be ++ (c ++ Z))))) := by
+  generalize hZ : d.bs ++ (l2.src ++ (endrawBody tight ++ (r.src ++ (d.be ++ X)))) = Z
+  have hsrc : (Tag.mk (.raw c ri l2 tight) l r).src d ++ X =
+      d.bs ++ (l.src ++ (rawBody tight ++ (ri.src ++ (d.be ++ (c ++ Z))))) := by
     simp [Tag.src, Tag.start, Tag.after, List.append_assoc, ← hZ]
-  have hsrc2 : (Tag.mk (.raw c ri l2) l r).src d ++ X = rawOpen d l ri ++ (c ++ Z) := by
+  have hsrc2 : (Tag.mk (.raw c ri l2 tight) l r).src d ++ X = rawOpen d tight l ri ++ (c ++ Z) := by
     rw [hsrc]; simp [rawOpen, List.append_assoc]
-  have hopen : (rawOpen d l ri).length = d.bs.length + l.ws.len + (rawBody.length + ri.src.length + d.be.length) := by
+  have hopen : (rawOpen d tight l ri).length = d.bs.length + l.ws.len + ((rawBody tight).length + ri.src.length + d.be.length) := by
     simp [rawOpen, Mark.ws_len]; omega
-  have hlen : ((Tag.mk (.raw c ri l2) l r).src d).length =
-      (rawOpen d l ri).length + c.length +
-        (d.bs.length + (l2.src.length + endrawBody.length + r.src.length + d.be.length)) := by
+  have hlen : ((Tag.mk (.raw c ri l2 tight) l r).src d).length =
+      (rawOpen d tight l ri).length + c.length +
+        (d.bs.length + (l2.src.length + (endrawBody tight).length + r.src.length + d.be.length)) := by
     simp [Tag.src, Tag.start, Tag.after, rawOpen]; omega
   have hfree' : noBsIn d c Z = true := by
     simpa [rawFree, Tag.rawClose, ← hZ, ← hX, List.append_assoc] using hfree
-  have hfind := findEndraw_content g c l2 r X (by rw [hZ]; exact hfree')
+  have hfind := findEndraw_content g c tight l2 r X (by rw [hZ]; exact hfree')
   rw [hZ] at hfind
   unfold handleTag
   simp only []
@@ -297,7 +330,7 @@ theorem handleTag_raw (cfg : Cfg) {d : Delims} (g : Good d) (lead : List Out) (c
   rw [List.take_append_of_le_length (nextK_le cfg true r t'), List.drop_append_of_le_length (nextK_le cfg true r t')]
   rw [rawData_eq]
   obtain ⟨ce, re, hre, hw⟩ := lastOk_rev g.lbe
-  refine Or.inr ⟨rfl, ce, re ++ ((d.bs ++ (l.src ++ (rawBody ++ ri.src))).reverse ++ preTag), ?_, hw⟩
+  refine Or.inr ⟨rfl, ce, re ++ ((d.bs ++ (l.src ++ (rawBody tight ++ ri.src))).reverse ++ preTag), ?_, hw⟩
   simp [rawOpen, List.reverse_append, hre, List.append_assoc]
 
 end MJ.Lexer
